@@ -373,6 +373,8 @@ func (p *Program) mods(f *ssa.Function) *modSummary {
 type constAgg struct {
 	elems []ssa.Value // constants or loads of globals, by index
 	array bool        // the global is the array itself (not a slice of a hidden array)
+	isMap bool        // a map literal: keys[i] -> elems[i]
+	keys  []*ssa.Const
 }
 
 var constAggMemo map[*ssa.Global]*constAgg
@@ -400,6 +402,8 @@ func (p *Program) computeConstAggs() {
 		switch x := v.(type) {
 		case *ssa.Const:
 			return true
+		case *ssa.Function:
+			return x.Parent() == nil
 		case *ssa.UnOp:
 			_, isG := x.X.(*ssa.Global)
 			return x.Op == token.MUL && isG
@@ -427,6 +431,11 @@ func (p *Program) computeConstAggs() {
 				elemT = u.Elem()
 			case *types.Array:
 				elemT, n, isArray = u.Elem(), u.Len(), true
+			case *types.Map:
+				if ca := p.constMap(initFn, g, elemOK); ca != nil {
+					constAggMemo[g] = ca
+				}
+				continue
 			default:
 				continue
 			}
@@ -573,9 +582,21 @@ func readOnlyUses(v ssa.Value, d int) bool {
 			}
 		case *ssa.Index, *ssa.DebugRef, *ssa.Range:
 		case *ssa.Call:
-			b, ok := x.Call.Value.(*ssa.Builtin)
-			if !ok || (b.Name() != "len" && b.Name() != "cap") {
+			if b, ok := x.Call.Value.(*ssa.Builtin); ok {
+				if b.Name() != "len" && b.Name() != "cap" {
+					return false
+				}
+				break
+			}
+			// handed to a pike function that itself only reads it
+			sc := x.Call.StaticCallee()
+			if sc == nil || sc.Blocks == nil || !isPikeFunc(sc) {
 				return false
+			}
+			for i, a := range x.Call.Args {
+				if a == v && (i >= len(sc.Params) || !readOnlyUses(sc.Params[i], d+1)) {
+					return false
+				}
 			}
 		case *ssa.Phi:
 			if !readOnlyUses(x, d+1) {
@@ -602,4 +623,81 @@ func usersOf(fn *ssa.Function, g *ssa.Global) []ssa.Instruction {
 		}
 	}
 	return out
+}
+
+// constMap: g is a map filled once in init from a literal with constant keys and
+// constant / global / function values, and only looked up, measured or ranged
+// over by pike afterwards.
+func (p *Program) constMap(initFn *ssa.Function, g *ssa.Global, elemOK func(ssa.Value) bool) *constAgg {
+	var mk *ssa.MakeMap
+	stores := 0
+	for _, r := range usersOf(initFn, g) {
+		st, ok := r.(*ssa.Store)
+		if !ok || st.Addr != g {
+			return nil
+		}
+		stores++
+		mk, _ = st.Val.(*ssa.MakeMap)
+	}
+	if stores != 1 || mk == nil || mk.Referrers() == nil {
+		return nil
+	}
+	ca := &constAgg{isMap: true}
+	for _, r := range *mk.Referrers() {
+		switch x := r.(type) {
+		case *ssa.MapUpdate:
+			k, ok := x.Key.(*ssa.Const)
+			v := x.Value
+			if mi, isMI := v.(*ssa.MakeInterface); isMI {
+				v = mi.X
+			}
+			if cf, isCT := v.(*ssa.ChangeType); isCT {
+				v = cf.X
+			}
+			if !ok || !elemOK(v) {
+				return nil
+			}
+			ca.keys = append(ca.keys, k)
+			ca.elems = append(ca.elems, v)
+		case *ssa.Store, *ssa.DebugRef:
+		default:
+			return nil
+		}
+	}
+	if len(ca.keys) == 0 || len(ca.keys) > 32 {
+		return nil
+	}
+	for _, f := range p.allFuncs {
+		if f == initFn {
+			continue
+		}
+		for _, b := range f.Blocks {
+			for _, in := range b.Instrs {
+				for _, op := range in.Operands(nil) {
+					if *op != ssa.Value(g) {
+						continue
+					}
+					ld, ok := in.(*ssa.UnOp)
+					if !ok || ld.Referrers() == nil {
+						if _, isDbg := in.(*ssa.DebugRef); isDbg {
+							continue
+						}
+						return nil
+					}
+					for _, r := range *ld.Referrers() {
+						switch x := r.(type) {
+						case *ssa.Lookup, *ssa.Range, *ssa.DebugRef:
+						case *ssa.Call:
+							if bi, ok := x.Call.Value.(*ssa.Builtin); !ok || bi.Name() != "len" {
+								return nil
+							}
+						default:
+							return nil
+						}
+					}
+				}
+			}
+		}
+	}
+	return ca
 }
